@@ -676,7 +676,7 @@ func TestVerif_C06(t *testing.T) {
 		"archiveChunkSource.getMany re-derives the address from the content (chunks.NewChunk), so for forged-address chunks its callbacks are compared by content multiset instead of by address",
 		"forged addresses are sound input: no layer below ValueStore re-hashes content; dolt's own archive tests forge addresses the same way (hashWithPrefix)")
 	defer rec.Write(t)
-	vh.Check(t, "roundtrip", 260, 800, func(rt *rapid.T) { c06Case(rt, rec) })
+	vh.Check(t, "roundtrip", 260, 450, func(rt *rapid.T) { c06Case(rt, rec) })
 	rec2 := vh.NewRecorder("C06", "dict_training", "exploration", "1000+-120 small chunks (forged colliding and genuine addresses, mostly mutually similar contents) written as snappy chunks into one ArchiveStreamWriter so that the writer trains its own zstd dictionary after maxSamples chunks; the archive is verified with the full read surface. Non-trivial: the threshold was crossed and a prefix run >= 2 exists.")
 	defer rec2.Write(t)
 	vh.Check(t, "dict_training", 4, 12, func(rt *rapid.T) { c06DictTraining(rt, rec2) })
